@@ -1,4 +1,5 @@
 import TIV.C11.Proofs
+import TIV.C11.FaultProofs
 import TIV.C11.Generated
 /-!
 # C11 — property theorems
@@ -493,6 +494,43 @@ theorem opened_closed_fmt (src : Src) (closed sizeOk : Bool) (v : Variant) (p : 
 theorem explicit_close (src : Src) (sizeOk : Bool) (v : Variant) (p : RP) (hf : p.frame = false) :
     ((fmtOp src false sizeOk v p).run none (initW src)).w.openedAllClosed = true :=
   explicit_close_all src sizeOk v p hf
+
+/-- `render_closes_own_image`: a `format()` / `str()` / still `draw()` (the entry points that open
+    their own image: `_renderer` → `_get_image`), file- or PIL-sourced, any style and branch, any
+    data-dependent path through `_get_render_data`, **every fault plan**:
+    * when the call returns, or raises the `RenderError` that a failing mode conversion, a failing
+      resize (`convert_resize_img`) or a failing re-encoding (iterm2 native animation) is turned into
+      — an injected failure or Pillow's own, e.g. a truncated file — every image and file the call
+      opened from a path has been closed by an explicit `close()` (nothing is left for the garbage
+      collector to reclaim while the caller holds the exception);
+    * the caller's PIL image is never closed, whatever fails.
+    (A failure of any *other* Pillow call — `seek`, `getdata`, `tobytes`, `save`, … — propagates
+    as it is and leaves the image in hand to the collector: the code has no clean-up there, the
+    model mirrors that, and the theorem does not claim it.)
+    Proof: exhaustive kernel evaluation over the finite path space × every fault index up to the
+    path's number of Pillow calls (`chkEverything_true`), `run_budget` for larger indices,
+    `linesLoop_oac` for any number of LINES rows. -/
+theorem render_closes_own_image (src : Src) (sizeOk : Bool) (v : Variant) (p : RP) (hf : p.frame = false)
+    (f : Option Nat) :
+    (((fmtOp src false sizeOk v p).run f (initW src)).exc = none ∨
+      ((fmtOp src false sizeOk v p).run f (initW src)).exc = some .renderError →
+        ((fmtOp src false sizeOk v p).run f (initW src)).w.openedAllClosed = true) ∧
+    (src = .pil → ((fmtOp src false sizeOk v p).run f (initW src)).w.isClosed 0 = false) := by
+  constructor
+  · intro h
+    have hk := okAtExit_all src sizeOk v p hf f
+    simp only [okAtExit] at hk
+    rcases h with h | h <;> simpa [h] using hk
+  · intro hs
+    subst hs
+    exact (source_pil_never_closed _ f (initW .pil) 0 ⟨rfl, by decide, rfl, rfl⟩).2
+
+/-- non-vacuity: a palette GIF frame whose conversion fails (3rd Pillow call: open, seek, convert) —
+    RenderError, and the opened file has been closed -/
+example : ((fmtOp .file false true .block ⟨true, false, true, false, true, true⟩).run (some 2) (initW .file)).exc
+      = some .renderError ∧
+    ((fmtOp .file false true .block ⟨true, false, true, false, true, true⟩).run (some 2) (initW .file)).w.isClosed 0
+      = true := by decide
 
 /-- non-vacuity of `convert_resize_img`'s clean-up: when the conversion of a freshly opened file
     fails (fault at the 2nd Pillow call), the opened image has been closed explicitly and the
